@@ -95,3 +95,15 @@ Theorem frame_burst_header_partial :
     recv H B gdec_h gdec_b s' bufcap isbulk = RErrCrc tl.
 Proof. exact burst_header_partial. Qed.
 Print Assumptions frame_burst_header_partial.
+
+(* [FULL] repaired codec, fix cbee0a8. For every gob behaviour whatsoever, every stream, damaged or not, and every
+   list of receiver buffers: once a message was rejected with a checksum mismatch or with its payload left unread,
+   no later receive on that connection delivers anything, and a codec that has remembered such an error never
+   delivers at all. The unrepaired connection violates this, see Proofs.c16b_unrepaired_delivers_unsent *)
+Theorem frame_rejected_then_silent :
+  forall (H B : Type) (gdec_h : list byte -> gres H) (gdec_b : list byte -> gres B)
+         (bufs : list (N * bool)) (broken : bool) (s : list byte),
+    silent_after_reject H B (recv_conn H B gdec_h gdec_b broken s bufs) /\
+    Forall (fun x => is_ok H B x = false) (recv_conn H B gdec_h gdec_b true s bufs).
+Proof. intros. split; [apply recv_conn_silent | apply recv_conn_broken]. Qed.
+Print Assumptions frame_rejected_then_silent.
